@@ -1,6 +1,7 @@
 """C14 The fast selection-choice encoder is sound and covers the design space - structural clauses."""
 import ast
 
+from ..rules.match import FnText
 from ..model import AnalysisError, norm, walk_no_nested
 from ..cfg import build_cfg, node_exprs
 from ..astutil import short, call_name
@@ -196,9 +197,10 @@ def redecode(ctx, rule='A5x'):
 
 def linked_collapse(ctx, rule='A5l'):
     fn = ctx.fn(f'{FAST}._get_selection_choice_is_forced')
-    txt = ' '.join(norm(s) for s in fn.body)
+    txt = FnText(ctx, fn)
     ok = 'ChoiceConstraintType.LINKED' in txt and 'for i_dep in i_choices[1:]' in txt and \
-        'is_forced[i_dep] = True' in txt and 'sorted(' in txt
+        'is_forced[i_dep] = True' in txt and \
+        'sorted([i_choice_nodes[node] for node in choice_constraint.nodes if node in i_choice_nodes])' in txt
     ctx.ob(rule, fkey(fn, rule, 'linked-all-but-first-forced'), ok, fn.where,
            'for a LINKED constraint every choice but the first (in choice order) is forced, i.e. exactly one '
            'design variable represents the linked group', '')
